@@ -196,3 +196,46 @@ fn u9_rand_gen_bytes_bounded16() {
     let v = src.gen_bytes(n);
     assert!(v.len() == n, "[C18] drawn byte string must have the requested length");
 }
+
+// ---- U7: opcode tables against the CPython reference (generated ref_tables_kani.rs) -------------------
+mod reftab { include!("ref_tables_kani.rs"); }
+use crate::opcodes::{OpcodeKind, PICKLE_OPCODES};
+
+/// as_u8 of every kind is the CPython opcode byte (also proved in Verus; here on the compiled match)
+#[kani::proof]
+#[kani::unwind(70)]
+fn u7_as_u8_all_kinds() {
+    let i: usize = kani::any();
+    kani::assume(i < reftab::ALL_KINDS.len());
+    let k = reftab::ALL_KINDS[i];
+    assert!(reftab::ref_index(k) == i);
+    assert!(k.as_u8() == reftab::REF_OPS[i].code, "[C04] opcode byte differs from the CPython table");
+}
+
+/// PICKLE_OPCODES[v] == { k : introduced in protocol <= v }  (both inclusions), for every v in 0..=5;
+/// concrete tables, the real phf lookup
+#[kani::proof]
+#[kani::unwind(70)]
+fn u7_tables_exact() {
+    let v: u8 = kani::any();
+    kani::assume(v <= 5);
+    let t = PICKLE_OPCODES.get(&v);
+    assert!(t.is_some(), "[C05] no opcode table for a protocol in 0..=5");
+    let t = t.unwrap();
+    let mut seen = [false; 68];
+    let mut i = 0;
+    while i < t.len() {
+        let r = reftab::ref_index(t[i]);
+        assert!(reftab::REF_OPS[r].proto <= v, "[C05] table of protocol v lists an opcode introduced later");
+        seen[r] = true;
+        i += 1;
+    }
+    let mut j = 0;
+    while j < 68 {
+        if reftab::REF_OPS[j].proto <= v {
+            assert!(seen[j], "[C12] an opcode of the protocol's vocabulary is missing from its table");
+        }
+        j += 1;
+    }
+    assert!(PICKLE_OPCODES.get(&6u8).is_none());
+}
